@@ -15,7 +15,7 @@ CHECKS["C02"] = ("exploration", "hostile-input decode monitor (structure-aware m
     "Feeds mutated encodings, type-directed length bombs, a Variant header grid, nesting towers and random bytes to the real decoders of every registered type in child processes and measures each call (panic, bytes allocated, CPU time, process death). Held = no input among those explored broke a bound.",
     "bounds instantiated as alloc <= 1024*len+16MiB and <= 20 CPU-seconds per call; inputs <= 2 MiB", "3/C02")
 CHECKS["C03"] = ("exploration", "decode / re-encode / decode differential monitor over the hostile corpus",
-    "Every input of the C02 corpus plus targeted non-canonical forms that decodes is re-encoded with the real encoder and decoded again; the two decoded values must be equal. A violation is a concrete byte string.",
+    "Every input of the C02 corpus plus targeted non-canonical forms (incl. every registered type without fields in an ExtensionObject with an empty body) that decodes is re-encoded with the real encoder and decoded again; the two decoded values must be equal. A violation is a concrete byte string.",
     "equality oracle as in C01; only inputs that decode exercise the oracle (count reported in evidence)", "3/C03")
 
 CHECKS["C04"] = ("exploration", "NodeID text round-trip and equality monitor against an independent identity model",
@@ -28,7 +28,7 @@ CHECKS["C15"] = ("exploration", "asymmetric crypto monitor: every plaintext leng
     "All 5 policies x 25 key size pairs: construction must fail exactly outside the policy limits; every plaintext length 0..3 blocks+1 round-trips and is cross-decrypted by an independent implementation; signatures verified, tampered and checked under wrong keys.",
     "Go crypto/rsa trusted and shared; committed test keys", "3/C15")
 CHECKS["C24"] = ("exploration", "model-based monitor of endpoint selection (independent match/maximum model)",
-    "Exhaustive over short endpoint lists from a policy x mode x level alphabet times all query forms, plus random longer lists with duplicates; the result must be a matching endpoint of maximal level, error iff nothing matches.",
+    "Exhaustive over short endpoint lists from a policy x mode x level alphabet times all query forms (URIs, short names incl. the documented ones without underscores, unknown), plus random longer lists with duplicates; the result must be a matching endpoint of maximal level, error iff nothing matches.",
     "lists without nil entries", "3/C24")
 
 CHECKS["C07"] = ("exploration", "in-process chunking round-trip monitor on the real sender and receiver code paths (detached channel instances)",
@@ -45,23 +45,23 @@ CHECKS["C38"] = ("exploration", "dense chunk-size sweep monitor of SetMaximumBod
     "chunk sizes above the dense range are sampled", "3/C38")
 
 CHECKS["C18"] = ("exploration", "exactly-once request/response matching monitor over a call/return log with unique nonces against a scripted reordering/dropping/duplicating server",
-    "Concurrent callers on one channel (opcua.Client and bare uasc with request ids near 2^32) against the independent scripted server; every successful call must return its own nonce, no nonce twice, wrong-typed responses must be errors.",
+    "Concurrent callers on one channel (opcua.Client and bare uasc with request ids near 2^32) against the independent scripted server; every successful call must return its own nonce, no nonce twice, wrong-typed responses and an echoed request must be errors.",
     "the scripted server binds each nonce to its request id", "3/C18")
 CHECKS["C22"] = ("exploration", "scripted-server monitor of the session handshake with forged server signatures, client in a child process",
-    "All 5 policies x 2 modes x 12 signature/certificate variants over real secured channels provided by the independent peer; Connect must succeed iff the signature is valid, never activate, never report Connected, never die.",
+    "All 5 policies x 2 modes x 16 signature/certificate variants (incl. bad signatures with an empty or another algorithm URI and a missing signature field) over real secured channels provided by the independent peer; Connect must succeed iff the signature is valid, never activate, never report Connected, never die.",
     "client configured with the scripted server's certificate via SecurityFromEndpoint", "3/C22")
 
 CHECKS["C29"] = ("exploration", "hostile-client monitor of the real server in a child process: generated requests of every registered type, targeted requests, raw mutated chunks, non-reading clients; liveness canary with CPU-clock hang oracle and goroutine-dump witness",
     "The real server runs as a child process; the independent scripted client sends targeted, generated (every registered request type, with and without session) and raw-fuzzed traffic; after each group a canary client on its own connection must get a Read answered. A dead process is a violation with the crashing frame; a silent process is a hang only if its CPU clock stands still (dump attached).",
     "bounded time = canary 3 s + 4 fresh connections; server silent but burning CPU is inconclusive, never a violation", "3/C29")
 CHECKS["C31"] = ("exploration", "model-based monitor of access-level enforcement: real client against the real server, node values inspected in-process after every operation",
-    "8x8 grid of AccessLevel x UserAccessLevel (absent, Byte 0/1/2/3/0xfc, wrong-typed) nodes, seed-determined Read/Write sequences with unique values and run-time rewrites of the level attributes; a denied read must not return the value, a denied write must not answer Good and must leave the value unchanged.",
+    "11x11 grid of AccessLevel x UserAccessLevel (absent, Byte 0/1/2/3/0xfc, levels stored as UInt32 / Int32 with and without the flags, String) nodes declared with five node class attributes (Variable as UInt32 / Int32, absent, VariableType, Object), seed-determined Read/Write sequences with unique values and run-time rewrites of the level attributes; a denied read must not return the value, a denied write must not answer Good and must leave the value unchanged.",
     "levels present as Byte are the property's domain; absent/wrong-typed levels are only required not to crash", "3/C31")
 CHECKS["C32"] = ("exploration", "id-allocation and ownership model monitor over recorded create/delete histories of several sessions (independent scripted client, server tables inspected in-process)",
-    "Histories of CreateSubscription/DeleteSubscriptions/CreateMonitoredItems/DeleteMonitoredItems/SetMonitoringMode by 2-4 sessions incl. foreign and unknown ids; a create must never return an id that the model holds live; foreign deletes/mode changes must not answer Good and must leave the victim's entries unchanged.",
+    "Histories of CreateSubscription/DeleteSubscriptions/CreateMonitoredItems/DeleteMonitoredItems/SetMonitoringMode by 2-4 sessions incl. foreign and unknown ids; a create must never return an id that the model holds live; foreign deletes/mode changes must not answer Good and must leave the victim's entries unchanged (also when the refused id precedes an own one in the same request); what nobody deleted exists; a concurrent churn phase of all sessions ends every history.",
     "model built from acknowledged responses only", "3/C32")
 CHECKS["C33"] = ("exploration", "metamorphic monitor of Browse against an independent filter model (unfiltered browse + own HasSubtype closure)",
-    "In-process Namespace.Browse over nodes of the standard address space and an added namespace x directions x all reference types (abstract included, null, unknown) x subtype flag x class masks, compared as multisets with the unfiltered result filtered by the model; a sample goes over the wire through a real client.",
+    "In-process Namespace.Browse over nodes of the standard address space and an added namespace x directions x all reference types (abstract included, null, unknown) x subtype flag x class masks, compared as multisets with the unfiltered result filtered by the model; afterwards a reference type is defined below HasOrderedComponent and browses with each supertype are checked.",
     "the unfiltered browse of the same node is trusted as the set of references", "3/C33")
 CHECKS["C35"] = ("exploration", "session-enforcement monitor: every registered request type x token state over a bare secure channel, effects inspected in-process",
     "Every request type x {null, unknown, closed, created-not-activated, foreign} token x generated bodies sent by the independent scripted client; the answer must be a session error and values, subscription and monitored-item tables must be unchanged; a write under a valid session is the control.",
@@ -71,14 +71,14 @@ CHECKS["C30"] = ("exploration", "configuration-sweep monitor: independent script
     "Real servers with singleton, pair and random subsets of the 11 supported policy/mode pairs; for each, 25 OpenSecureChannel attempts by the independent peer, a renewal asking for the other mode, GetEndpoints, and real opcua.Client connects; a channel must be established exactly for configured pairs and the advertised endpoints must equal the configured pairs.",
     "servers without any EnableSecurity option are outside the quantifier (pinned tests require None/None there)", "3/C30")
 CHECKS["C37"] = ("exploration", "interoperability matrix monitor: real client against real server for every cell of policy x mode x server key x client key x token type, write/read-back oracle incl. multi-chunk values",
-    "Each cell starts a real server enabling only that configuration, discovers and selects the advertised endpoint with a real client, connects, activates with an anonymous or username token, writes and reads back a scalar and a 150 kB ByteString. Thorough runs the complete finite matrix (141 cells).",
+    "Each cell starts a real server enabling only that configuration, discovers and selects the advertised endpoint with a real client, connects, activates with an anonymous or username token, writes and reads back a scalar and a 150 kB ByteString. The quick tier adds two cells per policy with keys on different sides of 2048 bits; both tiers run a user-name session over the None endpoint of a server that also enables a secured policy. Thorough runs the complete finite matrix.",
     "committed self-signed certificates; quick tier runs the 2048-bit column only", "3/C37")
 
 CHECKS["C23"] = ("exploration", "configuration-isolation monitor: random option sequences in fresh child processes, full configuration snapshots (verif hook) of every client, the defaults and the Hello on the wire compared before/after",
     "Each sequence constructs 2-8 clients with random subsets of all 36 options in a fresh process; after every construction the snapshot of a fresh default configuration, uacp.DefaultClientACK and the snapshots of all earlier clients must be unchanged, and at the end the Hello of a default client on the wire must equal the one of a fresh process.",
     "snapshot hook renders functions/channels as set/unset; option arguments from a fixed generated pool", "3/C23")
 CHECKS["C34"] = ("exploration", "linearizability monitor: client-boundary call/return histories of concurrent Read/Write by several real clients checked with porcupine against a register-per-node model",
-    "2-8 real clients x 30-60 operations over 1-3 shared nodes (node and map namespaces) of the real server, unique written values, one monotonic clock; each history is checked by porcupine (partitioned per node); failed writes stay open to the end of the history; a checker timeout is inconclusive.",
+    "2-8 real clients x 30-60 operations over 1-3 shared nodes (node and map namespaces) of the real server, unique written values (Int64 and UInt32 above 2^31 registers, a read of another type counts as a value nobody wrote), a read-only register whose refused writes claim no effect, one monotonic clock; each history is checked by porcupine (partitioned per node); failed writes stay open to the end of the history; a checker timeout is inconclusive.",
     "client and server share a process and clock; histories are short (<= 480 operations) so the checker terminates", "3/C34")
 
 CHECKS["C05"] = ("exploration", "framing monitor: generated frame streams written by a raw socket under six segmentation patterns to a real uacp.Conn over loopback TCP; sequence-equality oracle, malformed-header and end-of-stream oracle, heartbeat-clock termination oracle",
@@ -92,51 +92,51 @@ CHECKS["C20"] = ("exploration", "immutability monitor: every delivered request/r
     "changes are observed through re-encoding of the delivered objects", "3/C20")
 
 CHECKS["C10"] = ("exploration", "replay monitor: verbatim copies (single and runs) of earlier chunks injected on established secured channels of the real server and the real client; conservation oracle over the recorded history (value = last fresh write, one response per request id, each call gets the response sealed for it)",
-    "The independent client holds a Sign / SignAndEncrypt session on the real server, writes unique values and re-sends byte-identical copies of earlier Write chunks at random positions; the node value (inspected in-process) must never return to a replayed value and no request may be answered twice. The scripted server replays earlier response chunks to the real client.",
+    "The independent client holds a Sign / SignAndEncrypt session on the real server, writes unique values and re-sends byte-identical copies of earlier Write chunks at random positions; the node value (inspected in-process) must never return to a replayed value and no request may be answered twice; variants: the client's numbering starts shortly before the end of its range and wraps to 0 inside the history (chunks from before the wrap and the chunk numbered 0 are replayed), a token renewal right before the replay. The scripted server replays earlier response chunks to the real client.",
     "a server that gives up the channel after a replay is accepted", "3/C10")
 CHECKS["C11"] = ("exploration", "arrival-order sequence monitor at the decrypting independent peer under concurrent senders, renewals and hook-point delays (incl. a sender parked across a renewal), both directions, counters placed just below the wrap",
-    "Concurrent senders on one real client-kind channel with explicit renewals against the scripted server, and the real server's read/publish responses against the renewing independent client; the peer's arrival-order log must show +1 per chunk (or the wrap) and no interleaving of multi-chunk messages. Evidence lists hook-point hits and runs with a sender parked across a renewal.",
+    "Concurrent senders on one real client-kind channel with explicit renewals against the scripted server, and the real server's read/publish responses against the renewing independent client; the peer's arrival-order log must show +1 per chunk (or the wrap) and no interleaving of multi-chunk messages. A quarter of the client histories add hazards: requests refused as too large or cancelled before sending, a renewal that gets no answer, a second caller of Renew. Evidence lists hook-point hits and runs with a sender parked across a renewal.",
     "arrival order on a TCP connection = order of writes; hook delays only at points where pre-emption is possible anyway", "3/C11")
 
 CHECKS["C06"] = ("exploration", "wire-observing limit monitor: the independent peer on one side of the connection sees every chunk gopcua writes and sends the largest chunks/messages it is entitled to, over a grid of asymmetric buffer sizes and message limits, gopcua in client role, server role and as stock server",
     "For configurations from {8192..2^20}^4 x message limits x chunk counts: every chunk gopcua puts on the wire must fit the receive buffer its receiver advertised, the server's ACK must respect the Hello, everything the peer may send must be accepted, and a message beyond the peer's limits must be refused by the sender with none of its chunks on the wire.",
     "policy None (fixed 24 byte chunk header); thorough covers the full 6^4 buffer grid for both roles", "3/C06")
 CHECKS["C13"] = ("exploration", "hostile-stream monitor: malformed handshakes, OPN junk, short/garbled chunks, floods of unfinished messages and wrong-direction services against bare gopcua channels in child processes; liveness (heartbeat clock), crash and buffered-bytes (verif accessor) oracles",
-    "Raw and semi-valid byte streams from the independent peer to a server-kind and a client-kind channel living in a child process; the child must not die, Receive must return after the peer closed, the bytes buffered for incomplete messages must stay within 8 x MaxChunkCount x ReceiveBufSize and no single Receive may allocate more than 512 MiB.",
+    "Raw and semi-valid byte streams (incl. bare headers of every message type declaring sizes 0-16 and 400 overruns of one request id followed by a flood) from the independent peer to a server-kind and a client-kind channel living in a child process; the child must not die, Receive must return after the peer closed, the bytes buffered for incomplete messages must stay within 8 x MaxChunkCount x ReceiveBufSize and no single Receive may allocate more than 512 MiB.",
     "post-open streams under policy None (secured hostile chunks are C09's subject)", "3/C13")
 
 CHECKS["C36"] = ("exploration", "Go race detector (-race build of the worker and its child processes, halt_on_error=0, reports de-duplicated by the pair of top gopcua frames) over the concurrent workloads of the other properties plus in-process fan-out workloads",
-    "The -race build re-runs slices of the workloads of C10-C12, C16, C18-C20, C25-C29 and C34 with their hook-point delays and in-process fan-out rounds (application goroutines changing values/attributes/adding nodes, auto-reconnecting clients with concurrent requests, subscribe/cancel loops, NodeMonitor add/remove, a server-side channel drop); every race report with a gopcua frame is a finding keyed by its site pair.",
+    "The -race build re-runs slices of the workloads of C10-C12, C16, C18-C20, C25-C29 and C34 with their hook-point delays and in-process fan-out rounds (application goroutines changing values/attributes/adding nodes, auto-reconnecting clients with concurrent requests, subscribe/cancel loops, two subscriptions of one NodeMonitor adding and removing nodes, token renewals on a busy channel, a server-side channel drop); every race report with a gopcua frame is a finding keyed by its site pair.",
     "sees only executed interleavings; socket I/O between two accesses hides races (compensated by the fan-out rounds and hook delays)", "3/C36")
 
 CHECKS["C19"] = ("exploration", "timeout monitor with forced hand-over races: scripted server withholding / timing answers, hook points parking the timed-out caller and the dispatcher, heartbeat-counted durations, pending-slot accessor and post-scenario delivery oracle",
-    "Withheld answers, answers within +-20 ms of the caller's timer, forced races (caller parked after its timer fired or its context ended, then the answer arrives; dispatcher parked after taking the handler; the same for a renewal's OpenSecureChannel answer) and requests cancelled before they were written; un-forced calls must return within 3 x (timeout + leniency) heartbeats, nothing may stay blocked, no handler slot may remain and 10 later requests must still complete.",
+    "Withheld answers, answers within +-20 ms of the caller's timer, forced races (caller parked after its timer fired or its context ended, then the answer arrives; dispatcher parked after taking the handler; the same for a renewal's OpenSecureChannel answer) requests cancelled before they were written, and a renewal whose answer is withheld for good; un-forced calls must return within 3 x (timeout + leniency) heartbeats, nothing may stay blocked, no handler slot may remain and 10 later requests must still complete.",
     "heartbeat clock (<= elapsed ms); hook points only between critical sections", "3/C19")
 
 CHECKS["C16"] = ("exploration", "renewal monitor: scripted server with short revised lifetimes stamping issue/renewal events one-sidedly, concurrent callers with hook delays; independent client renewing against the real server under publish traffic incl. requests under the previous token",
-    "Client channels: per token exactly renewals (no re-open), none before half of the lifetime (one-sided timing, load cannot cause it), every request issued during three lifetimes answered with its own response. Server: five renewals by the independent client under a 3 ms subscription and concurrent reads, half of them followed by reads sealed with the previous token; everything must be answered and the connection must survive.",
+    "Client channels: per token exactly renewals (no re-open), none before half of the lifetime (one-sided timing, load cannot cause it), every request issued during three lifetimes answered with its own response, incl. one that stays outstanding until the next renewal has been answered and a caller whose contexts have ended before it sends; the peer gives up a connection on an out-of-order sequence number; all callers must come back. Server: five renewals by the independent client under a 3 ms subscription and concurrent reads, half of them followed by reads sealed with the previous token; everything must be answered and the connection must survive.",
     "late renewals are counted, not asserted (load); real time must pass", "3/C16")
 CHECKS["C17"] = ("exploration", "expired-token injection monitor: the independent peer keeps superseded keys and injects a fresh-sequence chunk sealed with them after 1.25 x lifetime + margin, towards the real client (marked value must not be returned) and the real server (node value must not change)",
-    "Lifetimes 1 s and 2 s, Sign and SignAndEncrypt, margins 0.5 s and 2 s; controls under the current token precede each injection; the server case also records that the previous token is accepted while it is valid.",
+    "Lifetimes 1 s and 2 s, Sign and SignAndEncrypt, margins 0.5 s and 2 s; controls under the current token precede each injection; in half of the histories the last chunk before the expiry is one under the old token while it is valid; the server case also records that the previous token is accepted while it is valid.",
     "the harness can only be late (token more expired); expiry counted from the peer's own issue stamp", "3/C17")
 
 CHECKS["C21"] = ("exploration", "client robustness monitor: the real client in a child process against a scripted server answering every request with generated decodable responses (shapes, lengths, types, statuses), panic and hang oracle per call",
-    "47 client operations incl. node helpers, subscription calls, the background publish loop, the monitor package and the reconnect actions; responses of the expected type with null / empty / short / long arrays and any status, other response types, faults; a quarter of runs also during connect, a third focused on publish responses; no panic in any goroutine, every call returns within 12000 heartbeats of its 800 ms context.",
+    "47 client operations incl. node helpers, subscription calls, the background publish loop, the monitor package and the reconnect actions; responses of the expected type with null / empty / short / long arrays and any status, other response types, faults; a quarter of runs also during connect, a third focused on publish responses, a sixth leading the client through session loss into the recreation of its subscriptions, Browse answers with continuation points leading into BrowseNext; no panic in any goroutine, every call returns within 12000 heartbeats of its 800 ms context.",
     "responses generated by the typed generator of C01 (values a server can encode)", "3/C21")
 CHECKS["C27"] = ("exploration", "deadlock / progress monitor: scripted server holding the outstanding PublishRequest, concurrent Subscribe / Cancel / ForgetSubscription callers with hook delays, publish outcomes incl. faults, timeouts and connection loss with and without auto-reconnect; heartbeat-counted blocked-call oracle with goroutine dump, publish-progress oracle",
-    "1-3 subscriptions, 2-8 concurrent calls (repeated cancels / forgets, unknown ids) while a publish request is outstanding, a second wave during the reconnect or shutdown the outcome sets off; every call returns within 6000 heartbeats, the client settles Connected or Closed, with subscriptions known to both sides a PublishRequest reaches the server, a fresh subscription receives a notification, Close returns.",
+    "1-3 subscriptions, 2-8 concurrent calls (repeated cancels / forgets, unknown ids) while a publish request is outstanding, a second wave during the reconnect or shutdown the outcome sets off; variants: an application that does not read its notifications, and one that calls the API between reads of an unbuffered channel while a reconnect republishes messages; every call returns within 6000 heartbeats, the client settles Connected or Closed, with subscriptions known to both sides a PublishRequest reaches the server, a fresh subscription receives a notification, Close returns.",
     "heartbeat clock; progress is bounded progress (40 publish rounds / 8000 heartbeats)", "3/C27")
 
 CHECKS["C28"] = ("exploration", "attribution / convergence monitor over recorded delivery histories: self-identifying values (node index in every written value), concurrent writer clients, add/remove churn on the node monitor, quiescence comparison with the server's node values",
-    "Real server and real client with NodeMonitor channel subscriptions; 1-4 writer connections, 100-1600 unique writes each, nodes added and removed meanwhile in half of the histories; every delivered message must name the node its value was written to, and within 6000 heartbeats of the last write the last delivered value per monitored node equals the node's value.",
+    "Real server and real client with NodeMonitor channel subscriptions; 1-4 writer connections, 100-1600 unique writes each, nodes added and removed meanwhile in half of the histories, an A-B-A write on every node at the end; every delivered message must name the node its value was written to, and within 6000 heartbeats of the last write the last delivered value per monitored node equals the node's value.",
     "late 'handle not found' messages for just-removed nodes are counted, not attributed; histories with monitor-reported drops are inconclusive", "3/C28")
 
 CHECKS["C26"] = ("exploration", "reconnect monitor with a scripted subscription server (per-session subscriptions, retransmission queues, ledger of sent messages and acknowledgements) and fault injection counted in requests; self-identifying values join the server's ledger with the application's delivery record",
-    "1-3 subscriptions x 1-3 items, 1-3 faults (channel loss, session loss, restart with id reuse; later faults mostly inside the reconnect), TransferSubscriptions supported / unsupported / invalid; once stably Connected every subscription of the application must receive a new message with all items, everything received must be acknowledged under keep-alive traffic, nothing acknowledged twice on one connection, nothing acknowledged that was not sent or not delivered.",
+    "1-3 subscriptions x 1-3 items, items created with two TimestampsToReturn values, 1-3 faults (channel loss and session loss with 0-2 notifications lost in flight, restart with id reuse; later faults inside the reconnect or after it), TransferSubscriptions supported / unsupported / invalid; once stably Connected every subscription of the application must receive a new message with all items, everything received must be acknowledged under keep-alive traffic, nothing acknowledged twice on one connection, nothing acknowledged that was not sent or not delivered.",
     "a client that does not get back to a stable Connected state is inconclusive here (C25); sequence numbers keep growing across restarts so that ledger keys stay unique", "3/C26")
 
 CHECKS["C25"] = ("exploration", "lifecycle monitor: fault-injecting TCP proxy between the real client and the real server (child process), state reports recorded through StateChangedFunc and checked online against the documented transition relation, goroutine-dump and connection-attempt oracle after Close",
-    "1-4 faults per history (FIN / RST, outages, server restarts, (re)connections cut after 1-1500 bytes incl. the first connect), Close in steady state, during an outage, right after a fault, after a failed connect; documented transitions only, Connected with a working Read within 20000 heartbeats of the last fault (auto-reconnect), after Close: Closed kept, no connection attempts, no client goroutines.",
+    "1-4 faults per history (FIN / RST, outages, server restarts, (re)connections cut after 1-1500 bytes or going silent there without being closed, positions drawn per step of the connect sequence, incl. the first connect), Close in steady state, during an outage, right after a fault, after a failed connect and - forced through the hook cl.dial.opened - while a reconnect attempt holds an opened channel; documented transitions only, Connected with a working Read within 20000 heartbeats of the last fault (auto-reconnect), after Close: Closed kept, no connection attempts, no open connection at the proxy, no client goroutines.",
     "Connect is called once per client (as client.go documents); the state after a failed first Connect is recorded, not judged", "3/C25")
 
 NOT_YET = {}
